@@ -578,6 +578,12 @@ func main() {
 	sb.WriteString("\n")
 	sb.WriteString(transposeShape(root))
 	sb.WriteString("\n")
+	sb.WriteString(mmapShape(root))
+	sb.WriteString("\n")
+	sb.WriteString(storeShape(root))
+	sb.WriteString("\n")
+	sb.WriteString(sites(root))
+	sb.WriteString("\n")
 	cs := oapiConsts(root)
 	sort.Slice(cs, func(i, j int) bool { return cs[i].name < cs[j].name })
 	for _, c := range cs {
